@@ -150,7 +150,76 @@ type prover struct {
 const zero = ""
 
 // linOf decomposes an integer SSA value into base term + constant offset along the path.
+// combOf: v as a linear combination of atomic SSA values (additions/subtractions and safe conversions only), with
+// the constant part separate. Used to cancel symbolic terms: (i + (n − l)) + l = i + n.
+func (pr *prover) combOf(v ssa.Value, sign int64, atoms map[ssa.Value]int64, order *[]ssa.Value, depth int) (c int64, leaves int) {
+	v = pr.ps.Resolve(v)
+	if n, ok := evalInt(v, pr.ps); ok {
+		return sign * n, 0
+	}
+	if depth < 12 {
+		switch x := v.(type) {
+		case *ssa.BinOp:
+			if x.Op == token.ADD || x.Op == token.SUB {
+				s2 := sign
+				if x.Op == token.SUB {
+					s2 = -sign
+				}
+				c1, l1 := pr.combOf(x.X, sign, atoms, order, depth+1)
+				c2, l2 := pr.combOf(x.Y, s2, atoms, order, depth+1)
+				return c1 + c2, l1 + l2
+			}
+		case *ssa.Convert:
+			if safeIntConv(x) {
+				return pr.combOf(x.X, sign, atoms, order, depth+1)
+			}
+		case *ssa.ChangeType:
+			return pr.combOf(x.X, sign, atoms, order, depth+1)
+		}
+	}
+	if _, seen := atoms[v]; !seen {
+		*order = append(*order, v)
+	}
+	atoms[v] += sign
+	return 0, 1
+}
+
 func (pr *prover) linOf(v ssa.Value) lin {
+	// symbolic cancellation first: when terms cancel, work on what is left
+	if bo, ok := pr.ps.Resolve(v).(*ssa.BinOp); ok && (bo.Op == token.ADD || bo.Op == token.SUB) {
+		atoms := map[ssa.Value]int64{}
+		var order []ssa.Value
+		c, leaves := pr.combOf(bo, 1, atoms, &order, 0)
+		var left []ssa.Value
+		allPlus := true
+		for _, a := range order {
+			if atoms[a] != 0 {
+				left = append(left, a)
+				if atoms[a] != 1 {
+					allPlus = false
+				}
+			}
+		}
+		if len(left) < leaves && allPlus {
+			switch len(left) {
+			case 0:
+				return lin{zero, c}
+			case 1:
+				l := pr.linOf(left[0])
+				return lin{l.base, l.off + c}
+			case 2:
+				a, b := pr.linOf(left[0]), pr.linOf(left[1])
+				if a.base != zero && b.base != zero {
+					term := "(" + a.base + "+" + b.base + ")"
+					if !pr.seen[term] {
+						pr.seen[term] = true
+						pr.sums = append(pr.sums, sumFact{term, lin{a.base, 0}, lin{b.base, 0}})
+					}
+					return lin{term, a.off + b.off + c}
+				}
+			}
+		}
+	}
 	off := int64(0)
 	for depth := 0; depth < 12; depth++ {
 		v = pr.ps.Resolve(v)
